@@ -127,11 +127,13 @@ class OwnedScheduler:
             k = self._pick(dq)
             node = nodes[k]
             inputs = {d: results[d] for d in deps[k]}
-            out = node(inputs)
+            if self.on_task is not None:
+                # the hook owns the execution (it may digest before/after, re-execute, pickle ...)
+                out = self.on_task(k, node, inputs)
+            else:
+                out = node(inputs)
             self.ntasks += 1
             self.trace.append(k)
-            if self.on_task is not None:
-                self.on_task(k, node, inputs, out)
             if self.retain:
                 self.retained[k] = (node, inputs, out)
             results[k] = out
